@@ -1,8 +1,8 @@
 (* C09 -- abstract syntax shared by the resolver model (Model.v) and the
    specification (Spec.v): enough statement and expression forms to place every
-   static-rule violation at any syntactic depth.  A `nat` in a node is its
+   static-rule violation at any syntactic depth.  An `N` in a node is its
    identity = the source position the resolver reports for it. *)
-From Coq Require Import String List Bool Arith.
+From Coq Require Import String List Bool Arith NArith.
 Import ListNotations.
 
 Record options := {
@@ -33,46 +33,46 @@ Proof. decide equality. Defined.
 Definition rule_eqb (a b : rule) : bool := if rule_eq_dec a b then true else false.
 
 Inductive expr :=
-| EId (n : nat) (x : string)                      (* identifier use *)
+| EId (n : N) (x : string)                      (* identifier use *)
 | ELit
 | EOp (es : exprs)                                (* any operator / display: children visited in order *)
-| ECall (n : nat) (f : expr) (a : args)
-| ELambda (n : nat) (ps : params) (body : expr)
-| EComp (n : nat) (iter : expr) (vars : lhs) (cl : clauses) (body : expr)   (* [body for vars in iter cl..] *)
+| ECall (n : N) (f : expr) (a : args)
+| ELambda (n : N) (ps : params) (body : expr)
+| EComp (n : N) (iter : expr) (vars : lhs) (cl : clauses) (body : expr)   (* [body for vars in iter cl..] *)
 with exprs := ENil | ECons (e : expr) (r : exprs)
 with args :=
 | ANil
-| APos (n : nat) (e : expr) (r : args)
-| ANamed (n : nat) (x : string) (e : expr) (r : args)
-| AStar (n : nat) (e : expr) (r : args)
-| AStarStar (n : nat) (e : expr) (r : args)
+| APos (n : N) (e : expr) (r : args)
+| ANamed (n : N) (x : string) (e : expr) (r : args)
+| AStar (n : N) (e : expr) (r : args)
+| AStarStar (n : N) (e : expr) (r : args)
 with params :=
 | PNil
-| PId (n : nat) (x : string) (r : params)
-| PDef (n : nat) (x : string) (d : expr) (r : params)       (* n = position of '=' *)
-| PStar (n : nat) (name : option (nat * string)) (r : params)
-| PStarStar (n : nat) (nn : nat) (x : string) (r : params)
+| PId (n : N) (x : string) (r : params)
+| PDef (n : N) (x : string) (d : expr) (r : params)       (* n = position of '=' *)
+| PStar (n : N) (name : option (N * string)) (r : params)
+| PStarStar (n : N) (nn : N) (x : string) (r : params)
 with clauses :=
 | CNil
 | CFor (vars : lhs) (iter : expr) (r : clauses)
 | CIf (c : expr) (r : clauses)
 with lhs :=
-| LId (n : nat) (x : string)
-| LSeq (n : nat) (l : lhss)                       (* tuple or list of targets *)
+| LId (n : N) (x : string)
+| LSeq (n : N) (l : lhss)                       (* tuple or list of targets *)
 | LExpr (es : exprs)                              (* x[i], x.f : operands are uses *)
-| LBad (n : nat)                                  (* any other expression *)
+| LBad (n : N)                                  (* any other expression *)
 with lhss := LNil | LCons (l : lhs) (r : lhss).
 
 Inductive stmt :=
 | SExpr (e : expr)
-| SBranch (n : nat)                               (* break / continue *)
-| SIf (n : nat) (c : expr) (t f : stmts)
+| SBranch (n : N)                               (* break / continue *)
+| SIf (n : N) (c : expr) (t f : stmts)
 | SAssign (aug : bool) (l : lhs) (e : expr)
-| SDef (n : nat) (nn : nat) (x : string) (ps : params) (body : stmts)
-| SFor (n : nat) (vars : lhs) (iter : expr) (body : stmts)
-| SWhile (n : nat) (c : expr) (body : stmts)
-| SReturn (n : nat) (e : option expr)
-| SLoad (n : nat) (items : list (nat * string * nat * string))   (* from-pos, from-name, to-pos, to-name *)
+| SDef (n : N) (nn : N) (x : string) (ps : params) (body : stmts)
+| SFor (n : N) (vars : lhs) (iter : expr) (body : stmts)
+| SWhile (n : N) (c : expr) (body : stmts)
+| SReturn (n : N) (e : option expr)
+| SLoad (n : N) (items : list (N * string * N * string))   (* from-pos, from-name, to-pos, to-name *)
 with stmts := SNil | SCons (s : stmt) (r : stmts).
 
 Definition program := stmts.
